@@ -152,10 +152,46 @@ AP_FORMS = [(None, 'f'), ('false', 'f'), ('true', 'y'), ('"any"', 'y'), ('"strin
 TKEYS = ['"a"', '"b c"', '"\\u00e9"', '"k\\"q"', '"\\\\"', '"0"', '"#"', '"t\\tab"', '""']
 
 
+# alternatives of an `or` rule over built-in types: (text in the schema, wire tokens, accepts(example literal)?)
+def or_alt_pool():
+    out = [('"integer"', ['L', 'F', 'i', '0'], 'i'), ('"float"', ['L', 'F', 'f', '0'], 'f'), ('"string"', ['L', 'F', 's', '0'], 's'),
+           ('"boolean"', ['L', 'F', 'b', '0'], 'b'), ('"null"', ['L', 'F', 'n', '0'], 'n'), ('"any"', ['L', 'Y'], '*'), ('"email"', ['L', 'F', 's', '0'], None),
+           ('"uuid"', ['L', 'F', 's', '0'], None), ('"object"', ['o'], None), ('"array"', ['a'], None),
+           ('{type: "object"}', ['o'], None), ('{type: "array"}', ['a'], None), ('{type: "any"}', ['L', 'Y'], '*')]
+    sets = [('integer', 'i', [('min', '0')]), ('integer', 'i', [('min', '0'), ('max', '10'), ('exclusiveMaximum', 'true')]), ('integer', 'i', [('const', 'true')]),
+            ('integer', 'i', [('nullable', 'true')]), ('float', 'f', [('min', '1.5')]), ('decimal', 'f', [('precision', '2')]), ('decimal', 'f', [('precision', '1'), ('const', 'true')]),
+            ('string', 's', [('minLength', '1')]), ('string', 's', [('maxLength', '3'), ('nullable', 'true')]), ('string', 's', [('const', 'true')]), ('string', 's', []),
+            ('boolean', 'b', [('const', 'true')]), ('boolean', 'b', []), ('null', 'n', [])]
+    for t, k, rules in sets:
+        text = '{' + ', '.join(['type: "%s"' % t] + ['%s: %s' % (n, v) for n, v in rules]) + '}'
+        out.append((text, ['L'] + leaf_tokens(k, rules), k if not rules or all(n in ('nullable',) for n, _ in rules) else None))
+    out.append(('{type: "datetime"}', ['L'] + leaf_tokens('s', []), None))
+    out.append(('{type: "enum", enum: [5, "a", null]}', ['L'] + leaf_tokens('s', [('enum', '[5, "a", null]')]), None))
+    out.append(('{type: "enum", enum: [1.5, true]}', ['L'] + leaf_tokens('s', [('enum', '[1.5, true]')]), None))
+    return out
+
+
+OR_ALTS = None
+
+
+def gen_or(rng):
+    """a scalar example with an `or` rule whose first alternative certainly accepts it"""
+    global OR_ALTS
+    if OR_ALTS is None:
+        OR_ALTS = or_alt_pool()
+    ex, kind = rng.choice([('5', 'i'), ('0', 'i'), ('1.5', 'f'), ('"a"', 's'), ('"abcd"', 's'), ('true', 'b'), ('null', 'n')])
+    sure = [a for a in OR_ALTS if a[2] in (kind, '*')]
+    alts = [rng.choice(sure)] + [rng.choice(OR_ALTS) for _ in range(rng.randint(1, 3))]
+    rng.shuffle(alts)
+    return ('R', ex, alts, rng.random() < 0.15)
+
+
 def gen_tree(rng, depth, pool):
     """('V', ex, kind, rules) | ('A', items, min, max, nullable) | ('O', [(key, optional, node)], ap, nullable) - no references"""
     r = rng.random()
     if depth >= 3 or r < 0.4:
+        if rng.random() < 0.25:
+            return gen_or(rng)
         ex, kind, rules = rng.choice(pool)
         return ('V', ex, kind, rules)
     if r < 0.68:
@@ -181,6 +217,8 @@ def tree_text(t, indent, extra, comma):
     pad = '  ' * indent
     if t[0] == 'V':
         return t[1] + comma + ann_of(list(t[3]) + extra)
+    if t[0] == 'R':
+        return t[1] + comma + ann_of([('or', '[' + ', '.join(a[0] for a in t[2]) + ']')] + ([('nullable', 'true')] if t[3] else []) + extra)
     if t[0] == 'A':
         rules = extra + ([('minItems', str(t[2]))] if t[2] is not None else []) + ([('maxItems', str(t[3]))] if t[3] is not None else []) + ([('nullable', 'true')] if t[4] else [])
         lines = [pad + '  ' + tree_text(x, indent + 1, [], ',' if i + 1 < len(t[1]) else '') for i, x in enumerate(t[1])]
@@ -193,6 +231,11 @@ def tree_text(t, indent, extra, comma):
 def tree_tokens(t):
     if t[0] == 'V':
         return ['V', hx(t[1])] + leaf_tokens(t[2], t[3])
+    if t[0] == 'R':
+        out = ['R', hx(t[1]), str(len(t[2])), '1' if t[3] else '0']
+        for a in t[2]:
+            out += a[1]
+        return out
     if t[0] == 'A':
         out = ['A', str(len(t[1])), '-' if t[2] is None else str(t[2]), '-' if t[3] is None else str(t[3]), '1' if t[4] else '0']
         for x in t[1]:
@@ -237,6 +280,8 @@ def canon_node(o):
     if not isinstance(o, dict):
         return 'notanobject'
     t = o.get('type')
+    if 'anyOf' in o and t is None:
+        return 'Y(' + ';'.join((['nullable'] if o.get('nullable') is True else []) + ['[' + ','.join(canon_node(x) for x in o['anyOf']) + ']']) + ')'
     if t == 'array':
         items = o.get('items', {})
         its = items['anyOf'] if isinstance(items, dict) and set(items.keys()) == {'anyOf'} else ([] if items == {} else [items])
